@@ -302,7 +302,10 @@ class Daemon(object):
 
     def raw(self, data):
         """Write raw bytes without sync (C08/C09 style runs)."""
-        self._write(data)
+        try:
+            self._write(data)
+        except (BrokenPipeError, OSError):
+            raise Died()
 
     def reload(self, new_text, wait=True):
         tmp = self.conf_path + ".new"
